@@ -22,6 +22,11 @@ per-round Boolean tables (`stubs.TableOracle`, slack and argument order checked)
 every `update()`, real `EmpiricalMeanVarModel` (PaVeBa, Auer), real fixed-hyper-parameter GPs; the
 answers the algorithm received are recorded and handed to the model.
 
+A third family ("scaled") registers its datasets through the REAL `Dataset.__init__` (min-max scaling of
+the inputs, standardisation of the outputs — the synthetic datasets of the other families bypass it) with
+awkward-but-ordinary shapes: a constant input feature, a single design, duplicate designs, integer data, a
+constant objective, two almost identical designs.
+
 Every Python exception in a constructor or in `run_one_step()` is an (R) violation
 `crash:<ExcType>@<file>:<func>:<alg>[:constructor]`; two crashes suspected in DESIGN §5 have their own
 keys: `crash:batch-exceeds-active` (D7, repaired in /repo: regression key) and
@@ -919,7 +924,7 @@ def _run(ctx, case, name, kind):
         except Exception as e:
             exc = e
         # ---- environment of this call, as far as it was observed
-        reqs = decode(rec.calls[ncalls:], prefer=set(prev["S"]) | set(prev["U"]) | set(prev["P"]))
+        reqs = decode(rec.calls[ncalls:], prefer=set(prev["S"]) | set(prev["U"]))
         if orc is not None and not table_stream:
             tabs = orc.tables(n_before)
         centres = rows = None
